@@ -231,7 +231,7 @@ class Table(object):
         self.router = Router()
         self.nreq = 0
         self.entries = []
-        self.routes = []
+        self.cb_index = {}
         self._register(len(entries) if upto is None else upto)
 
     def register_rest(self):
@@ -245,14 +245,20 @@ class Table(object):
         if self.mode == "routes":
             routes = []
             for i, (method, pattern) in chunk:
+                cb = self._callback(i)
+                self.cb_index[id(cb)] = (i, cb)
                 if method == "WS":
-                    routes.append(Route("r" + self.names[i], "GET", pattern, self._callback(i), websocket=True))
+                    routes.append(Route("r" + self.names[i], "GET", pattern, cb, websocket=True))
                 else:
-                    routes.append(Route("r" + self.names[i], method, pattern, self._callback(i)))
+                    routes.append(Route("r" + self.names[i], method, pattern, cb))
             self.router.registerRoutes(routes)
         else:
             deco = {"GET": H.get, "DELETE": H.delete, "POST": H.post, "PUT": H.put, "WS": H.websocket}
-            handlers = [(self.names[i], deco[method](pattern)(self._method(i))) for i, (method, pattern) in chunk]
+            handlers = []
+            for i, (method, pattern) in chunk:
+                fn = deco[method](pattern)(self._method(i))
+                self.cb_index[id(fn)] = (i, fn)
+                handlers.append((self.names[i], fn))
 
             def body(ns):
                 for name, fn in handlers:
@@ -260,9 +266,6 @@ class Table(object):
             cls = types.new_class("TableResource", (Resource,), {}, body)
             self.router.registerRoutes(cls())
         self.entries = self.all_entries[:upto]
-        self.routes = list(self.router.routes)
-        if len(self.routes) != len(self.entries):
-            raise RuntimeError("harness: %d routes registered for %d entries" % (len(self.routes), len(self.entries)))
 
     def _callback(self, i):
         def cb(request):
@@ -278,10 +281,11 @@ class Table(object):
         return h
 
     def index_of(self, endpt):
-        for i, r in enumerate(self.routes):
-            if r is endpt:
-                return i
-        return None
+        """which entry a route returned by getRoute belongs to: by the identity of its callback (the harness's own record;
+        the router's route listing is bookkeeping of the code under test and is not consulted)"""
+        cb = getattr(endpt, "callback", None)
+        hit = self.cb_index.get(id(getattr(cb, "__func__", cb)))
+        return None if hit is None else hit[0]
 
     def dispatch(self, method, path):
         self.nreq += 1
